@@ -1499,4 +1499,390 @@ theorem hdrFdeForAddress_normal (c : Cfg) (bases : Bases) (h : Hdr) (frame : Byt
   split <;> simp [Out.Normal]
 
 
+/-! ### entries round trip: building blocks -/
+
+theorem signedLoop_single (b : UInt8) (rest : Bytes) (hb : b.toNat < 128) :
+    Leb.signedLoop (b :: rest) 0 0 = .ok (b.toNat, 7, b, rest) := by
+  rw [Leb.signedLoop]
+  have h1 : ¬ ((0 : Nat) = 63 ∧ b.toNat ≠ 0 ∧ b.toNat ≠ 0x7f) := by omega
+  simp only [h1, if_false, hb, if_true, Nat.shiftLeft_zero, Nat.zero_or, Nat.zero_add]
+  have : b.toNat % 128 % 2 ^ 64 = b.toNat := by omega
+  rw [this]
+
+theorem sleb1_table : ∀ n : Fin 128,
+    Leb.toI64 (if (7 : Nat) < 64 ∧ (n.val / 64) % 2 = 1 then n.val ||| ((2 ^ 64 - 1) <<< 7 % 2 ^ 64) else n.val) =
+      (if n.val < 64 then (n.val : Int) else (n.val : Int) - 128) := by
+  decide +kernel
+
+theorem signed_single (v : Int) (rest : Bytes) (h1 : -64 ≤ v) (h2 : v < 64) :
+    Leb.signed (sleb1 v :: rest) = .ok (v, rest) := by
+  have hb : (sleb1 v).toNat = (v % 128).toNat := by
+    unfold sleb1
+    simp only [UInt8.toNat_ofNat']
+    omega
+  have hlt : (sleb1 v).toNat < 128 := by rw [hb]; omega
+  unfold Leb.signed
+  rw [signedLoop_single _ _ hlt]
+  simp only
+  have := sleb1_table ⟨(sleb1 v).toNat, hlt⟩
+  simp only at this
+  rw [this, hb]
+  congr 2
+  split <;> omega
+
+theorem cstr_append (s t : Bytes) (h : ∀ b, b ∈ s → b ≠ 0) : cstr (s ++ 0 :: t) = some (s, t) := by
+  induction s with
+  | nil => simp [cstr]
+  | cons b s ih =>
+    have hb : b ≠ 0 := h b (by simp)
+    simp only [List.cons_append, cstr, hb, if_false]
+    rw [ih (fun x hx => h x (by simp [hx]))]
+
+
+/-- size of the length field -/
+def lsz : Format → Nat
+  | .dwarf32 => 4
+  | .dwarf64 => 12
+
+/-- lengths a length field of the format can hold -/
+def LenOk (f : Format) (n : Nat) : Prop :=
+  match f with
+  | .dwarf32 => n < 0xffff_fff0
+  | .dwarf64 => n < 2 ^ 64
+
+theorem lengthField_length (e : Endian) (f : Format) (n : Nat) : (lengthField e f n).length = lsz f := by
+  cases f <;> simp [lengthField, lsz, toBytes_length]
+
+theorem readInitialLength_lengthField (e : Endian) (f : Format) (n : Nat) (rest : Bytes) (h : LenOk f n) :
+    readInitialLength e 64 (lengthField e f n ++ rest) = .ok ((n, f), rest) := by
+  have hw : writeInitialLength e f n = .ok (lengthField e f n) := by
+    cases f with
+    | dwarf32 =>
+      simp only [LenOk] at h
+      unfold writeInitialLength lengthField writeUdata
+      have h1 : ¬ (0xffff_fff0 ≤ n ∧ n ≤ 0xffff_ffff) := by omega
+      have h2 : n % 2 ^ (8 * 4) = n := Nat.mod_eq_of_lt (by omega)
+      simp [h1, h2]
+    | dwarf64 =>
+      unfold writeInitialLength lengthField writeUdata
+      simp
+  have hn : n < 2 ^ 64 := by cases f <;> simp only [LenOk] at h <;> omega
+  exact (writeInitialLength_roundtrip e f n _ rest hn hw).1
+
+/-- the prefix of an encoded entry: length field, then `idsz` bytes of CIE id / pointer -/
+theorem parsePrefix_encoded (c : Cfg) (f : Format) (off idsz id : Nat) (body' rest : Bytes)
+    (hidsz : idsz = if c.eh ∨ f = .dwarf32 then 4 else 8) (hid : id < 256 ^ idsz)
+    (hL : LenOk f (idsz + body'.length)) :
+    parsePrefix c ⟨off, lengthField c.e f (idsz + body'.length) ++ (toBytes c.e idsz id ++ body') ++ rest⟩ =
+      .ok (some { offset := off, length := idsz + body'.length, format := f, cieOffsetBase := off + lsz f,
+                  cieIdOrOffset := id, rest := ⟨off + lsz f + idsz, body'⟩ },
+           ⟨off + lsz f + (idsz + body'.length), rest⟩) := by
+  have hpos : idsz + body'.length ≠ 0 := by
+    rw [hidsz]; split <;> omega
+  unfold parsePrefix
+  rw [List.append_assoc, lift_ok _ _ _ _ _ (readInitialLength_lengthField c.e f _ _ hL)]
+  simp only [Out.bind_ok, hpos, if_false, lengthField_length]
+  have hlen : (toBytes c.e idsz id ++ body').length = idsz + body'.length := by
+    simp [toBytes_length]
+  have hsplit : (⟨off + lsz f, toBytes c.e idsz id ++ body' ++ rest⟩ : Rd).split (idsz + body'.length) =
+      .ok (⟨off + lsz f, toBytes c.e idsz id ++ body'⟩, ⟨off + lsz f + (idsz + body'.length), rest⟩) := by
+    unfold Rd.split
+    simp only [List.length_append, toBytes_length]
+    rw [if_pos (by omega), List.take_left' hlen, List.drop_left' hlen]
+  rw [hsplit]
+  simp only [Out.bind_ok]
+  have hcid : readCieId c f ⟨off + lsz f, toBytes c.e idsz id ++ body'⟩ =
+      .ok (id, ⟨off + lsz f + idsz, body'⟩) := by
+    unfold readCieId
+    by_cases hc : c.eh ∨ f = .dwarf32
+    · have h4 : idsz = 4 := by rw [hidsz, if_pos hc]
+      subst h4
+      rw [if_pos hc, lift_ok _ _ _ _ _ (readFixed_toBytes c.e 4 id body' hid)]
+      simp [toBytes_length]
+    · have h8 : idsz = 8 := by rw [hidsz, if_neg hc]
+      subst h8
+      rw [if_neg hc, lift_ok _ _ _ _ _ (readFixed_toBytes c.e 8 id body' hid)]
+      simp [toBytes_length]
+  rw [hcid]
+  simp only [Out.bind_ok, Out.pure_eq]
+
+
+set_option linter.unusedSimpArgs false
+
+/-- side conditions on one augmentation argument -/
+def ArgWF (e : Endian) (_bases : SecBases) (asz : Nat) : AugArg → Prop
+  | .lsda enc => enc < 256 ∧ isValidEncoding enc = true
+  | .fdeEnc enc => enc < 256 ∧ isValidEncoding enc = true
+  | .signal => True
+  | .pers enc x => enc < 256 ∧ isValidEncoding enc = true ∧ enc ≠ 0xff ∧ peApplication enc ≠ 0x50 ∧
+      (encodeOperand e enc asz x).isSome = true
+
+/-- what one argument contributes to the parsed `Augmentation`, and the offset after its data -/
+def applyArg (e : Endian) (bases : SecBases) (asz : Nat) (a : Aug) (o : Nat) : AugArg → Option (Aug × Nat)
+  | .lsda enc => some ({ a with lsda := some enc }, o + 1)
+  | .fdeEnc enc => some ({ a with fdeEnc := some enc }, o + 1)
+  | .signal => some ({ a with signal := true }, o)
+  | .pers enc x =>
+    match neededBase enc { bases := bases, funcBase := none, asz := asz } (o + 1) with
+    | some b =>
+      some ({ a with personality := some (enc, Ptr.new enc ((b + x) % 2 ^ 64 % 2 ^ (8 * asz))) },
+            o + 1 + ((encodeOperand e enc asz x).getD []).length)
+    | none => none
+
+def applyArgs (e : Endian) (bases : SecBases) (asz : Nat) : List AugArg → Aug → Nat → Option (Aug × Nat)
+  | [], a, o => some (a, o)
+  | arg :: t, a, o =>
+    match applyArg e bases asz a o arg with
+    | some (a', o') => applyArgs e bases asz t a' o'
+    | none => none
+
+theorem parsePointerEncoding_byte (o enc : Nat) (t : Bytes) (h : enc < 256) (hv : isValidEncoding enc = true) :
+    parsePointerEncoding ⟨o, UInt8.ofNat enc :: t⟩ = .ok (enc, ⟨o + 1, t⟩) := by
+  unfold parsePointerEncoding Rd.u8
+  have : (UInt8.ofNat enc).toNat = enc := by simp [UInt8.toNat_ofNat']; omega
+  simp [this, hv]
+
+theorem augLoop_args (m : Mode) (e : Endian) (bases : Bases) (asz : Nat) (h1 : 1 ≤ asz) (h8 : asz ≤ 8)
+    (s drest : Bytes) (input : Rd) :
+    ∀ (args : List AugArg) (a : Aug) (o : Nat) (a' : Aug) (o' : Nat),
+      (∀ arg, arg ∈ args → ArgWF e bases.ehFrame asz arg) →
+      applyArgs e bases.ehFrame asz args a o = some (a', o') →
+      augLoop m e bases asz (args.map AugArg.char ++ s) true a
+          (some ⟨o, args.flatMap (AugArg.data e asz) ++ drest⟩) input =
+        augLoop m e bases asz s true a' (some ⟨o', drest⟩) input := by
+  intro args
+  induction args with
+  | nil =>
+    intro a o a' o' _ h
+    simp only [applyArgs, Option.some.injEq, Prod.mk.injEq] at h
+    simp [h.1, h.2]
+  | cons arg t ih =>
+    intro a o a' o' hwf h
+    have hw := hwf arg (by simp)
+    have hwt : ∀ x, x ∈ t → ArgWF e bases.ehFrame asz x := fun x hx => hwf x (by simp [hx])
+    simp only [applyArgs] at h
+    cases arg with
+    | lsda enc =>
+      simp only [applyArg] at h
+      obtain ⟨hlt, hv⟩ := hw
+      simp only [List.map_cons, List.cons_append, List.flatMap_cons, AugArg.char, AugArg.data, augLoop]
+      simp only [show ¬ ((0x4c : UInt8).toNat = 0x7a) by decide, show (0x4c : UInt8).toNat = 0x4c by decide,
+        if_false, if_true]
+      rw [parsePointerEncoding_byte o enc _ hlt hv]
+      simp only [Out.bind_ok]
+      exact ih _ _ _ _ hwt h
+    | fdeEnc enc =>
+      simp only [applyArg] at h
+      obtain ⟨hlt, hv⟩ := hw
+      simp only [List.map_cons, List.cons_append, List.flatMap_cons, AugArg.char, AugArg.data, augLoop]
+      simp only [show ¬ ((0x52 : UInt8).toNat = 0x7a) by decide, show ¬ ((0x52 : UInt8).toNat = 0x4c) by decide,
+        show ¬ ((0x52 : UInt8).toNat = 0x50) by decide, show (0x52 : UInt8).toNat = 0x52 by decide,
+        if_false, if_true]
+      rw [parsePointerEncoding_byte o enc _ hlt hv]
+      simp only [Out.bind_ok]
+      exact ih _ _ _ _ hwt h
+    | signal =>
+      simp only [applyArg] at h
+      simp only [List.map_cons, List.cons_append, List.flatMap_cons, AugArg.char, AugArg.data, augLoop,
+        List.nil_append]
+      simp only [show ¬ ((0x53 : UInt8).toNat = 0x7a) by decide, show ¬ ((0x53 : UInt8).toNat = 0x4c) by decide,
+        show ¬ ((0x53 : UInt8).toNat = 0x50) by decide, show ¬ ((0x53 : UInt8).toNat = 0x52) by decide,
+        show (0x53 : UInt8).toNat = 0x53 by decide, if_false, if_true]
+      exact ih _ _ _ _ hwt h
+    | pers enc x =>
+      simp only [applyArg] at h
+      obtain ⟨hlt, hv, ho, hal, hsome⟩ := hw
+      cases hb : neededBase enc { bases := bases.ehFrame, funcBase := none, asz := asz } (o + 1) with
+      | none => rw [hb] at h; simp at h
+      | some b =>
+        rw [hb] at h
+        simp only at h
+        obtain ⟨bytes, hbytes⟩ := Option.isSome_iff_exists.mp hsome
+        simp only [List.map_cons, List.cons_append, List.flatMap_cons, AugArg.char, AugArg.data, augLoop]
+        simp only [show ¬ ((0x50 : UInt8).toNat = 0x7a) by decide, show ¬ ((0x50 : UInt8).toNat = 0x4c) by decide,
+          show (0x50 : UInt8).toNat = 0x50 by decide, if_false, if_true]
+        rw [parsePointerEncoding_byte o enc _ hlt hv]
+        simp only [Out.bind_ok, hbytes, Option.getD_some, List.append_assoc]
+        rw [pep_roundtrip m e enc { bases := bases.ehFrame, funcBase := none, asz := asz } (o + 1) x b bytes _
+          hv ho hal h1 h8 hb hbytes]
+        simp only [Out.bind_ok]
+        rw [hbytes] at h
+        exact ih _ _ _ _ hwt h
+
+
+end Gimli.CfiEntry
+namespace Gimli.Spec.Frame
+open Gimli Gimli.Ints Gimli.CfiEntry
+
+/-- the address size a CIE ends up with -/
+def cieAsz (c : Cfg) (ci : ACie) : Nat := if ¬ c.eh ∧ ci.version = 4 then ci.asz else c.asz
+
+/-- offset of the first byte after the return-address register, for fields starting at `o` -/
+def ACie.afterRar (c : Cfg) (ci : ACie) (o : Nat) : Nat :=
+  o + 1 + ci.augString.length + 1 + (if ¬ c.eh ∧ ci.version = 4 then 2 else 0) +
+    (Leb.encodeU ci.caf).length + 1 + ci.rarBytes.length
+
+/-- offset of the augmentation data (after its length) -/
+def ACie.dataOff (c : Cfg) (ci : ACie) (o : Nat) : Nat :=
+  ci.afterRar c o + (Leb.encodeU (ci.augData c.e).length).length
+
+/-- offset of the initial instructions -/
+def ACie.instrOff (c : Cfg) (ci : ACie) (o : Nat) : Nat :=
+  if ci.args.isEmpty then ci.afterRar c o else ci.dataOff c o + (ci.augData c.e).length
+
+/-- the `Augmentation` the reader must report -/
+def ACie.expectAug (c : Cfg) (bases : Bases) (ci : ACie) (o : Nat) : Option Aug :=
+  if ci.args.isEmpty then none
+  else (applyArgs c.e bases.ehFrame ci.asz ci.args {} (ci.dataOff c o)).map Prod.fst
+
+/-- well-formedness of an abstract CIE for a section kind / configuration -/
+structure ACie.WF (c : Cfg) (bases : Bases) (ci : ACie) (o : Nat) : Prop where
+  hver : ci.version = 1 ∨ ci.version = 3 ∨ ci.version = 4
+  hasz : ci.asz = 1 ∨ ci.asz = 2 ∨ ci.asz = 4 ∨ ci.asz = 8
+  hsame : ¬ (¬ c.eh ∧ ci.version = 4) → ci.asz = c.asz
+  hcaf : ci.caf < 2 ^ 64
+  hdaf : -64 ≤ ci.daf ∧ ci.daf < 64
+  hrar : if ci.version = 1 then ci.rar < 256 else ci.rar < 2 ^ 16
+  hargs : ∀ arg, arg ∈ ci.args → ArgWF c.e bases.ehFrame ci.asz arg
+  hbase : (applyArgs c.e bases.ehFrame ci.asz ci.args {} (ci.dataOff c o)).isSome = true
+  hdata : (ci.augData c.e).length < 2 ^ 64
+
+end Gimli.Spec.Frame
+namespace Gimli.CfiEntry
+open Gimli Gimli.Ints Gimli.Spec.Frame
+set_option linter.unusedSimpArgs false
+
+theorem augChars_nonzero (ci : ACie) : ∀ b, b ∈ ci.augString → b ≠ 0 := by
+  intro b hb
+  unfold ACie.augString at hb
+  split at hb
+  · simp at hb
+  · simp only [List.mem_cons, List.mem_map] at hb
+    rcases hb with h | ⟨a, _, h⟩
+    · rw [h]; decide
+    · rw [← h]; cases a <;> simp [AugArg.char]
+
+theorem u8_cons (o : Nat) (b : UInt8) (t : Bytes) : (⟨o, b :: t⟩ : Rd).u8 = .ok (b.toNat, ⟨o + 1, t⟩) := rfl
+
+theorem ofNat_toNat (n : Nat) (h : n < 256) : (UInt8.ofNat n).toNat = n := by
+  simp [UInt8.toNat_ofNat']; omega
+
+theorem readCstr_aug (ci : ACie) (o : Nat) (t : Bytes) :
+    readCstr ⟨o, ci.augString ++ 0 :: t⟩ = .ok (ci.augString, ⟨o + ci.augString.length + 1, t⟩) := by
+  unfold readCstr
+  simp only [cstr_append _ _ (augChars_nonzero ci)]
+
+theorem cieAddressSize_enc (c : Cfg) (ci : ACie) (o : Nat) (t : Bytes)
+    (hasz : ci.asz = 1 ∨ ci.asz = 2 ∨ ci.asz = 4 ∨ ci.asz = 8) :
+    cieAddressSize c ci.version ⟨o, ci.aszBytes c.eh ++ t⟩ =
+      .ok (cieAsz c ci, ⟨o + (if ¬ c.eh ∧ ci.version = 4 then 2 else 0), t⟩) := by
+  unfold cieAddressSize ACie.aszBytes cieAsz
+  split
+  · have h256 : ci.asz < 256 := by omega
+    have hrd : readAddressSize (UInt8.ofNat ci.asz :: 0 :: t) = .ok (ci.asz, 0 :: t) := by
+      unfold readAddressSize
+      simp only [ofNat_toNat _ h256, hasz, if_true]
+    have := lift_ok readAddressSize o [UInt8.ofNat ci.asz] (0 :: t) ci.asz hrd
+    simp only [List.cons_append, List.nil_append, List.length_cons, List.length_nil] at this ⊢
+    rw [this]
+    simp [u8_cons]
+  · simp
+
+theorem lift_uleb (o v : Nat) (t : Bytes) (hv : v < 2 ^ 64) :
+    (⟨o, Leb.encodeU v ++ t⟩ : Rd).lift Leb.unsigned = .ok (v, ⟨o + (Leb.encodeU v).length, t⟩) :=
+  lift_ok _ _ _ _ _ (Leb.unsigned_roundtrip v hv t)
+
+theorem lift_sleb1 (o : Nat) (v : Int) (t : Bytes) (h1 : -64 ≤ v) (h2 : v < 64) :
+    (⟨o, sleb1 v :: t⟩ : Rd).lift Leb.signed = .ok (v, ⟨o + 1, t⟩) := by
+  have := lift_ok Leb.signed o [sleb1 v] t v (signed_single v t h1 h2)
+  simpa using this
+
+theorem cieRar_enc (ci : ACie) (o : Nat) (t : Bytes)
+    (hrar : if ci.version = 1 then ci.rar < 256 else ci.rar < 2 ^ 16) :
+    cieRar ci.version ⟨o, ci.rarBytes ++ t⟩ = .ok (ci.rar, ⟨o + ci.rarBytes.length, t⟩) := by
+  unfold cieRar ACie.rarBytes
+  split
+  · rename_i h1
+    simp only [h1, if_true] at hrar
+    simp [u8_cons, ofNat_toNat _ hrar]
+  · rename_i h1
+    simp only [h1, if_false] at hrar
+    rw [lift_uleb _ _ _ (by omega)]
+    simp [hrar]
+
+theorem cieAug_enc (c : Cfg) (bases : Bases) (ci : ACie) (o o0 : Nat) (t : Bytes)
+    (hasz : ci.asz = 1 ∨ ci.asz = 2 ∨ ci.asz = 4 ∨ ci.asz = 8)
+    (hargs : ∀ arg, arg ∈ ci.args → ArgWF c.e bases.ehFrame ci.asz arg)
+    (hdata : (ci.augData c.e).length < 2 ^ 64)
+    (hdo : ci.args.isEmpty = false → o + (Leb.encodeU (ci.augData c.e).length).length = ci.dataOff c o0)
+    (hbase : (applyArgs c.e bases.ehFrame ci.asz ci.args {} (ci.dataOff c o0)).isSome = true) :
+    cieAug c bases ci.asz ci.augString ⟨o, ci.augBlock c.e ++ t⟩ =
+      .ok (ci.expectAug c bases o0,
+        ⟨if ci.args.isEmpty then o else ci.dataOff c o0 + (ci.augData c.e).length, t⟩) := by
+  unfold cieAug ACie.augString ACie.augBlock ACie.expectAug
+  by_cases hemp : ci.args.isEmpty = true
+  · simp [hemp]
+  · have hne : ci.args.isEmpty = false := by simpa using hemp
+    simp only [hne, Bool.false_eq_true, if_false, List.isEmpty_cons]
+    obtain ⟨⟨a', o'⟩, hap⟩ := Option.isSome_iff_exists.mp hbase
+    simp only [augLoop, if_true, Bool.false_eq_true, if_false]
+    rw [List.append_assoc, lift_uleb _ _ _ hdata]
+    simp only [Out.bind_ok]
+    have hsplit : (⟨o + (Leb.encodeU (ci.augData c.e).length).length, ci.augData c.e ++ t⟩ : Rd).split
+        (ci.augData c.e).length =
+        .ok (⟨o + (Leb.encodeU (ci.augData c.e).length).length, ci.augData c.e⟩,
+             ⟨o + (Leb.encodeU (ci.augData c.e).length).length + (ci.augData c.e).length, t⟩) := by
+      unfold Rd.split
+      rw [if_pos (by simp), List.take_left' rfl, List.drop_left' rfl]
+    rw [hsplit]
+    simp only [Out.bind_ok]
+    have h1 : 1 ≤ ci.asz := by omega
+    have h8 : ci.asz ≤ 8 := by omega
+    rw [hdo hne]
+    have hloop := augLoop_args c.m c.e bases ci.asz h1 h8 [] ci.augPad
+      ⟨ci.dataOff c o0 + (ci.augData c.e).length, t⟩
+      ci.args {} (ci.dataOff c o0) a' o' hargs hap
+    unfold ACie.augData at hloop ⊢
+    simp only [List.append_nil] at hloop
+    simp only [show (122 : UInt8).toNat = 122 by decide, if_true]
+    rw [hloop]
+    simp [augLoop, hap]
+
+theorem cieFromPrefix_encoded (c : Cfg) (bases : Bases) (ci : ACie) (p : Prefix) (o : Nat)
+    (hp : p.rest = ⟨o, ci.fields c.eh c.e⟩) (hw : ci.WF c bases o) :
+    cieFromPrefix c bases p =
+      .ok { offset := p.offset, length := p.length, format := p.format, version := ci.version,
+            aug := ci.expectAug c bases o, asz := cieAsz c ci, caf := ci.caf, daf := ci.daf, rar := ci.rar,
+            instr := ⟨ci.instrOff c o, ci.instr⟩ } := by
+  obtain ⟨hver, hasz, hsame, hcaf, hdaf, hrar, hargs, hbase, hdata⟩ := hw
+  have hv256 : ci.version < 256 := by omega
+  have hca : cieAsz c ci = ci.asz := by
+    unfold cieAsz
+    split
+    · rfl
+    · rename_i h; exact (hsame h).symm
+  unfold cieFromPrefix
+  rw [hp]
+  unfold ACie.fields
+  rw [u8_cons, ofNat_toNat _ hv256]
+  simp only [Out.bind_ok]
+  rw [if_neg (by simp [hver])]
+  rw [readCstr_aug]
+  simp only [Out.bind_ok]
+  rw [cieAddressSize_enc c ci _ _ hasz]
+  simp only [Out.bind_ok]
+  rw [lift_uleb _ _ _ hcaf]
+  simp only [Out.bind_ok]
+  rw [lift_sleb1 _ _ _ hdaf.1 hdaf.2]
+  simp only [Out.bind_ok]
+  rw [cieRar_enc ci _ _ hrar]
+  simp only [Out.bind_ok]
+  rw [hca]
+  have hoff : o + 1 + ci.augString.length + 1 + (if ¬c.eh = true ∧ ci.version = 4 then 2 else 0) +
+      (Leb.encodeU ci.caf).length + 1 + ci.rarBytes.length = ci.afterRar c o := by
+    unfold ACie.afterRar; omega
+  rw [hoff]
+  rw [cieAug_enc c bases ci (ci.afterRar c o) o ci.instr hasz hargs hdata (by intro _; rfl) hbase]
+  simp only [Out.bind_ok, Out.pure_eq, ACie.instrOff]
+
 end Gimli.CfiEntry
